@@ -1,9 +1,10 @@
 ---- MODULE MCGooseCmd ----
 EXTENDS GooseCmd
-MCPkgs == {"good", "goodffi", "partial", "allbad", "tagged", "nested", "latebad", "earlybad", "cgotag", "nofiles", "missing"}
+MCPkgs == {"good", "goodffi", "partial", "allbad", "tagged", "nested", "latebad", "earlybad", "cgotag", "nofiles", "missing", "twin1", "twin2"}
 MCClass == [p \in MCPkgs |-> CASE p = "partial" -> "partial" [] p = "earlybad" -> "partial" [] p = "allbad" -> "allbad" [] p = "latebad" -> "late-bad" [] p \in {"nofiles", "missing"} -> "unloadable" [] OTHER -> "good"]
 MCPatterns == {<<"good">>, <<"partial">>, <<"allbad">>, <<"partial", "good">>, <<"allbad", "goodffi">>, <<"good", "partial">>,
                <<"goodffi">>, <<"tagged", "nested">>, <<"earlybad">>, <<"earlybad", "good">>, <<"nested", "earlybad">>, <<"cgotag", "good", "nested">>, <<"cgotag", "earlybad", "good", "goodffi", "tagged">>, <<"latebad">>, <<"latebad", "good">>, <<"goodffi", "latebad", "nested">>,
+               <<"twin1", "twin2">>, <<"twin2", "good", "twin1">>, <<"twin1">>, <<"partial", "twin2", "twin1">>,
                <<"good", "missing">>, <<"missing", "good">>, <<"nofiles", "good", "nested">>, <<"goodffi", "nofiles">>, <<"nofiles">>, <<"partial", "missing", "goodffi">>,
                <<"allbad", "cgotag", "earlybad", "good", "goodffi", "latebad", "nested", "partial", "tagged">>}
 SmallPkgs == {"good", "partial", "latebad", "missing"}
